@@ -112,22 +112,26 @@ static int family_residue(void)
 {
         int idx = 0;
         static const cat_var_type VT[5] = {CAT_VAR_BUF_HEX, CAT_VAR_BUF_STRING, CAT_VAR_UINT_DEC, CAT_VAR_INT_DEC, CAT_VAR_NUM_HEX};
-        for (int exact = 0; exact < 8; exact++)
-                for (int mask = 0; mask < 256; mask++, idx++) {
-                        if (mask & (1 << exact)) continue;
+        /* every slot of the first eight: no match (0), proper prefix match (1) or a duplicate of the typed name (2, full match) */
+        for (int code = 0; code < 6561; code++, idx++) {
+                        int st[8], any_full = 0, x = code;
+                        for (int i = 0; i < 8; i++) { st[i] = x % 3; x /= 3; if (st[i] == 2) any_full = 1; }
+                        if (!any_full) continue;
                         if (idx % SW.nshards != SW.shard) continue;
-                        for (int vt = 0; vt < 5; vt++) {
+                        int exact = 0, mask = code;
+                        for (int vg = 0; vg < 10; vg++) {
+                                int vt = vg % 5, capg = vg / 5 ? 6 : 16;
                                 struct wcmd *c = sw_table(12);
                                 int pn = 0;
                                 for (int i = 0; i < 12; i++) {
-                                        if (i == exact) strcpy(c[i].name, "+P");
-                                        else if (i < 8 && (mask >> i & 1)) snprintf(c[i].name, sizeof c[i].name, "+P%c", 'A' + pn++);
+                                        if (i < 8 && st[i] == 2) strcpy(c[i].name, (i & 1) ? "+p" : "+P");
+                                        else if (i < 8 && st[i] == 1) snprintf(c[i].name, sizeof c[i].name, "+P%c", 'A' + pn++);
                                         else snprintf(c[i].name, sizeof c[i].name, "Z%c", 'A' + i);
                                         c[i].hmask = HM_W;
                                         c[i].nvar = 1;
-                                        c[i].var[0] = (struct wvar){.type = VT[vt], .size = 4, .access = CAT_VAR_ACCESS_READ_WRITE, .wcb = 1};
+                                        c[i].var[0] = (struct wvar){.type = VT[vt], .size = (uint8_t)(vt == 1 ? 16 : 4), .access = CAT_VAR_ACCESS_READ_WRITE, .wcb = 1};
                                 }
-                                sw_caps(16, (mask ^ exact) & 1);
+                                sw_caps(capg, ((code & 1) ^ (capg == 6)) ? ((code & 2) ? 2 : 1) : 0);
                                 W.line_max = 40; W.mon = P_ALL;
                                 world_build();
                                 snprintf(SW.extra, sizeof SW.extra, "family=residue exact-slot=%d prefix-mask=0x%02x first-variable-type=%d", exact, mask, vt);
